@@ -54,6 +54,8 @@ def declorder_variant(plan, rng):
     q = copy.deepcopy(plan)
     for _, _, m in q.blocks():
         rng.shuffle(m.decl_order)
+        if m.lifetimes and rng.random() < 0.5:
+            m.lifetimes = list(reversed(m.lifetimes))
     return q
 
 
